@@ -1053,8 +1053,8 @@ def main(chk: C.Check, build: C.Build) -> None:
     fam_counts: dict[str, Any] = {}
     #        names, depth, fraction in thorough, fraction in quick
     plan = [(1, 2, 1.0, 0.25), (1, 3, 1.0, 0.25), (1, 4, 1.0, 0.1), (2, 2, 1.0, 0.1),
-            (2, 3, 1.0, 0.011), (3, 2, 0.12, 0.011),
-            (2, 4, 0.0023, 0.0003), (3, 3, 0.00038, 0.00005), (3, 4, 0.0000019, 0.00000025)]
+            (2, 3, 1.0, 0.011), (3, 2, 0.06, 0.011),
+            (2, 4, 0.0015, 0.0003), (3, 3, 0.00025, 0.00005), (3, 4, 0.0000013, 0.00000025)]
     for k, d, f_th, f_q in plan:
         shapes = fam_shapes(k)
         total = len(shapes) ** d
@@ -1075,7 +1075,7 @@ def main(chk: C.Check, build: C.Build) -> None:
         fam_counts[f"names={k},depth={d}"] = {"space": total, "run": n, "complete": p >= 1.0}
     # the blank family: empty / whitespace / silent bodies, nested required blocks, if / for wrappers
     bl_plan = [(1, 2, 1.0, 0.3), (1, 3, 1.0, 0.04), (2, 2, 1.0, 0.024),
-               (1, 4, 0.05, 0.002), (2, 3, 0.001, 0.00006), (3, 2, 0.002, 0.0001)]
+               (1, 4, 0.03, 0.002), (2, 3, 0.0006, 0.00006), (3, 2, 0.0012, 0.0001)]
     for k, d, f_th, f_q in bl_plan:
         shapes = bl_shapes(k)
         total = len(shapes) ** d
@@ -1101,7 +1101,7 @@ def main(chk: C.Check, build: C.Build) -> None:
         if r.random() < 0.03 and len(tpls) > 1:
             cases.append((tpls, ("wrap", [(r.random() < 0.5, entry[1])]), limit, c[3] if len(c) > 3 else True))
             fam_wrapped += 1
-    nrand = 350 if not thorough else 6000
+    nrand = 350 if not thorough else 4000
     for _ in range(nrand):
         cases.append(rand_case(r, thorough) + (r.random() < 0.75,))
     # configuration axes: markup characters in literal text / in render data with auto-escape on / off;
@@ -1131,7 +1131,7 @@ def main(chk: C.Check, build: C.Build) -> None:
     # auto-reload through the tags: a parent / grand-parent is edited on disk between two renders
     n_history = 0
     pool = [c for c in cases[n_fixed:] if len(c[0]) > 1 and not (len(c) > 4 and c[4].get("before"))]
-    for c in r.sample(pool, min(len(pool), 90 if not thorough else 2000)):
+    for c in r.sample(pool, min(len(pool), 90 if not thorough else 1200)):
         h = edited_history(r, c)
         if h is not None:
             cases.append(h)
@@ -1264,7 +1264,7 @@ def main(chk: C.Check, build: C.Build) -> None:
                     {"templates": {k: to_src(v) for k, v in WREC[0].items()}, "implementation": o})
 
     # chains nested through include / render inside another chain: Python specification only
-    nested = [WNEST] + nested_cases(r, 200 if not thorough else 3000)
+    nested = [WNEST] + nested_cases(r, 200 if not thorough else 2000)
     n_nested_ok = 0
     for (tpls, entry, limit), (outs, _, _) in zip(nested, observe_all(nested)):
         o = agreed(outs, tpls, entry, limit)
@@ -1282,7 +1282,7 @@ def main(chk: C.Check, build: C.Build) -> None:
     # block-bearing templates that do not extend, rendered / called / included from inside a chain that
     # overrides the same block names: render and macro calls isolate the block stacks; include is the
     # recorded finding (the witness WINC is re-observed on every run)
-    partials = PARTIAL_CORPUS + [WINC] + partial_cases(r, 150 if not thorough else 3000)
+    partials = PARTIAL_CORPUS + [WINC] + partial_cases(r, 150 if not thorough else 2000)
     n_partial = {"checked": 0, "render_or_call_only": 0, "include_shared_stacks_observed": 0}
     for (tpls, entry, limit), (outs, _, _) in zip(partials, observe_all(partials)):
         o = agreed(outs, tpls, entry, limit)
